@@ -110,6 +110,8 @@ def kind_of_field(f: Any) -> str | None:
             return "hexbytes" + opt
         if typing.get_origin(base) is list and typing.get_args(base) == (int,) and accepts("1-3", [1, 2, 3]):
             return "ranges" + opt
+        if typing.get_origin(base) is dict and accepts("1:1 1:2", {1: [1, 2]}):
+            return "ranges2d" + opt
         if isinstance(base, type) and issubclass(base, enum.Enum) and len(list(base)) >= 3:
             m = list(base)[0]
             if accepts(m.name, m) and isinstance(m.value, int) and accepts(hex(m.value), m):
@@ -189,6 +191,11 @@ def values_for(kind: str, i: int, d: Path) -> tuple[Any, str, Any, Any]:
     if k == "hexbytes":
         v = [b"\x22\xf1\x90", b"\x3e\x00", b"\x10\x03\xaa\xbb"][i]
         return v, v.hex(), v.hex().upper() if i == 1 else v.hex(), v.hex()
+    if k == "ranges2d":
+        # several entries for one outer key (their inner values add up), a bare outer key, ranges on both levels
+        v = [{1: [1, 2]}, {2: None, 3: [0x27]}, {4: [1, 2, 3], 5: [1, 2, 3]}][i]
+        cli = [["1:1", "1:2"], ["2", "2-3:0x27"], ["4-5:1-2", "4:3", "5:3"]][i]
+        return v, cli, " ".join(cli), [cli, " ".join(cli), cli][i]
     if k == "ranges":
         v = [[1, 2, 3], [16, 32], [5, 7, 8, 9]][i]
         return v, ["1-3", "0x10,0x20", "5,7-9"][i], ["1-3", "0x10,0x20", "5,7-9"][i], [[1, 2, 3], "0x10,0x20", ["5", "7-9"]][i]
@@ -205,7 +212,8 @@ def nested(section: str, name: str, value: Any) -> dict[str, Any]:
     return cfg
 
 
-def parse(command: Any, args: list[str], env: dict[str, str], file_cfg: dict[str, Any]) -> tuple[str, Any, str]:
+def parse(command: Any, args: list[str], env: dict[str, str], file_cfg: dict[str, Any] | str) -> tuple[str, Any, str]:
+    """file_cfg: the content of gallia.toml as nested dict, or as TOML text"""
     from gallia.cli.gallia import _create_parser_from_command
     from gallia.config import Config
     from gallia.pydantic_argparse import ArgumentParser
@@ -215,7 +223,20 @@ def parse(command: Any, args: list[str], env: dict[str, str], file_cfg: dict[str
     err = io.StringIO()
     with mock.patch.dict(os.environ, clean, clear=True), contextlib.redirect_stderr(err):
         try:
-            model, extra, _ = _create_parser_from_command(command, Config(file_cfg), {})
+            if file_cfg:
+                # through a real gallia.toml, rewritten in place for every case, found and read by gallia's own loader
+                from gallia.config import load_config_file
+
+                TOML_PATH = toml_path()
+                TOML_PATH.parent.mkdir(parents=True, exist_ok=True)
+                TOML_PATH.write_text(file_cfg if isinstance(file_cfg, str) else toml_dumps(file_cfg))
+                os.environ["GALLIA_CONFIG"] = str(TOML_PATH)  # (inside the patched environment) the documented way to name the file
+                config, used = load_config_file()
+                if used != TOML_PATH:
+                    return "exc:harness", None, f"gallia.toml not used: {used}"
+            else:
+                config = Config()
+            model, extra, _ = _create_parser_from_command(command, config, {})
             p = ArgumentParser(model=model, extra_defaults=extra, prog="gallia")
             _, cfg = p.parse_typed_args(args)
             return "ok", cfg, ""
@@ -227,6 +248,39 @@ def parse(command: Any, args: list[str], env: dict[str, str], file_cfg: dict[str
 
 _BASE: dict[str, list[str] | None] = {}
 _POS: dict[str, dict[str, int]] = {}
+
+
+def toml_path() -> Path:
+    """one gallia.toml per process (shards run in forked workers: the pid is taken at call time)"""
+    return Path(tempfile.gettempdir()) / f"vf-c18-{os.getpid()}" / "gallia.toml"
+
+
+
+def toml_dumps(cfg: dict[str, Any]) -> str:
+    """Minimal TOML writer for nested tables of scalars and flat lists (all that a gallia.toml holds)."""
+    lines: list[str] = []
+
+    def val(v: Any) -> str:
+        if isinstance(v, bool):
+            return "true" if v else "false"
+        if isinstance(v, (int, float)):
+            return repr(v)
+        if isinstance(v, (list, tuple)):
+            return "[" + ", ".join(val(x) for x in v) + "]"
+        return json.dumps(str(v))
+
+    def table(prefix: list[str], d: dict[str, Any]) -> None:
+        scalars = {k: v for k, v in d.items() if not isinstance(v, dict)}
+        if prefix and scalars:
+            lines.append("[" + ".".join(prefix) + "]")
+        for k, v in scalars.items():
+            lines.append(f"{k} = {val(v)}")
+        for k, v in d.items():
+            if isinstance(v, dict):
+                table(prefix + [k], v)
+
+    table([], cfg)
+    return "\n".join(lines) + "\n"
 
 
 def base_args(name: str, command: Any) -> list[str] | None:
@@ -381,7 +435,7 @@ def check_cell(name: str, command: Any, cell: dict[str, Any], subset: tuple[bool
             else:
                 del args[idx]
         elif cli:
-            args += [long_opt, trip[0][1]]
+            args += [long_opt, *trip[0][1]] if isinstance(trip[0][1], list) else [long_opt, trip[0][1]]
         if env:
             envd[f"GALLIA_{attr.upper()}"] = trip[1][2]
         if file_:
@@ -569,7 +623,7 @@ def check_template() -> list[tuple[str, str]]:
         if base is None:
             continue
         s0, c0, e0 = parse(command, base, {}, {})
-        s1, c1, e1 = parse(command, base, {}, toml)
+        s1, c1, e1 = parse(command, base, {}, buf.getvalue())
         if s0 != "ok":
             continue
         if s1 != "ok":
@@ -596,8 +650,13 @@ def run_shard(spec: dict[str, Any], seed: int) -> Collector:
             col.violation(b, {"kind": "metadata"}, m)
         _, lost = check_metadata()
         col.case("metadata", True, cls="static/metadata", sample={"lost_declarations": lost[:8], "n_lost": len(lost)})
-        for b, m in check_template():
-            col.violation(b, {"kind": "template"}, m)
+        try:
+            for b, m in check_template():
+                col.violation(b, {"kind": "template"}, m)
+        finally:
+            import shutil
+
+            shutil.rmtree(toml_path().parent, ignore_errors=True)
         col.case("template", True, cls="static/template")
         return col
     d = Path(tempfile.mkdtemp(prefix="vf-c18."))
@@ -642,6 +701,7 @@ def run_shard(spec: dict[str, Any], seed: int) -> Collector:
         import shutil
 
         shutil.rmtree(d, ignore_errors=True)
+        shutil.rmtree(toml_path().parent, ignore_errors=True)
     if unmodelled_cmds:
         col.notes.append(f"commands whose required options the solver could not satisfy: {unmodelled_cmds}")
     col.notes.append(f"shard {spec['part']}: {skipped_lost} option instances skipped (metadata lost, known finding), {skipped_kind} skipped (type not modelled)")
@@ -655,7 +715,12 @@ def replay(witness: Any) -> list[tuple[str, str]]:
     if w.get("kind") == "metadata":
         return metadata_violations()
     if w.get("kind") == "template":
-        return check_template()
+        try:
+            return check_template()
+        finally:
+            import shutil
+
+            shutil.rmtree(toml_path().parent, ignore_errors=True)
     cmds = dict(flat_commands())
     command = cmds[w["command"]]
     base = base_args(w["command"], command)
@@ -675,3 +740,4 @@ def replay(witness: Any) -> list[tuple[str, str]]:
         import shutil
 
         shutil.rmtree(d, ignore_errors=True)
+        shutil.rmtree(toml_path().parent, ignore_errors=True)
